@@ -109,12 +109,28 @@ func (r *FnRun) lookupLocal(env *specEnv, name string) (Val, bool) {
 			}
 		} else if p.Kind == pkHeap && best == nil {
 			return p, true
+		} else if p.Kind == pkArr && best == nil {
+			if at, ok := under(p.Elem).(*types.Array); ok && isScalarType(at.Elem()) {
+				return Select(r.elemArr(env.st, "[]"+typeKey(at.Elem())+"|", r.sortOf(at.Elem())), p.Base), true
+			}
 		}
 	}
 	if best != nil {
 		if v, ok := env.st.cells[best]; ok {
 			_ = bestPtr
 			return v, true
+		}
+	}
+	// a local variable of the function that has not come into existence on
+	// this path (e.g. an early return): an arbitrary value. A clause that
+	// constrains it can then only hold if it holds for every value.
+	for _, b := range env.fr.fn.Blocks {
+		for _, in := range b.Instrs {
+			if a, ok := in.(*ssa.Alloc); ok && a.Comment == name {
+				if _, live := env.fr.vals[a]; !live && r.cur != nil {
+					return r.freshVal(r.cur, a.Type().(*types.Pointer).Elem(), "unborn_"+name), true
+				}
+			}
 		}
 	}
 	return nil, false
@@ -608,6 +624,12 @@ func (r *FnRun) argTerm(v Val, env *specEnv) Term {
 		return b.T
 	case SliceVal:
 		return b.Base
+	case *StructVal:
+		// a struct with a single field (digest.Digest, digest.InstanceName) is
+		// represented by that field
+		if len(b.F) == 1 {
+			return r.argTerm(b.F[0], env)
+		}
 	}
 	sfail("%s: argument %T is not a term", env.what, v)
 	return Term{}
